@@ -182,6 +182,49 @@ def rule_reverse_table(ctx: Ctx) -> None:
                  construct="run_circuit: list not reversed")
 
 
+def rule_graph_tableau_whole(ctx: Ctx) -> None:
+    """graph.whole: the Clifford tableau of a graph state has qubit i = i-th node of the graph.  get_clifford_tableau_from_graph must build
+    it from the stabilizer tableau of the *whole* graph on every path; assembling it from per-component tableaux with a tensor product
+    lists the qubits component by component, i.e. it is the tableau of a relabelled graph whenever a component's nodes are not consecutive."""
+    repo = ctx.repo
+    RC = "graphiq/backends/stabilizer/functions/rep_conversion.py"
+    m = repo.module(RC)
+    fn = repo.anchor(RC, "get_clifford_tableau_from_graph")
+    ctx.touch(m, fn)
+    g = func_params(fn)[0]
+    defs = {}
+    for a in ast.walk(fn):
+        if isinstance(a, ast.Assign) and len(a.targets) == 1 and isinstance(a.targets[0], ast.Name):
+            defs.setdefault(a.targets[0].id, []).append(a.value)
+    rets = [r for r in ast.walk(fn) if isinstance(r, ast.Return) and r.value is not None]
+    if not rets:
+        raise AnalysisError("get_clifford_tableau_from_graph: no return")
+
+    def whole(e, depth=0) -> bool:
+        if depth > 4:
+            return False
+        if isinstance(e, ast.Name) and e.id in defs:
+            return all(whole(v, depth + 1) for v in defs[e.id])
+        if isinstance(e, ast.Call):
+            cn = (call_name(e) or "").split(".")[-1]
+            if cn in ("clifford_from_stabilizer", "CliffordTableau") and e.args:
+                return whole(e.args[0], depth + 1)
+            if cn == "get_stabilizer_tableau_from_graph" and e.args:
+                return norm(e.args[0]) == g
+        return False
+    for r in rets:
+        if whole(r.value):
+            ctx.ok("graph.whole", m, r, what="tableau built from the stabilizer tableau of the whole graph")
+        elif any(isinstance(c, ast.Call) and (call_name(c) or "").split(".")[-1] in ("tensor", "block_diag", "kron") for c in ast.walk(r.value)) \
+                or any(isinstance(c, ast.Call) and (call_name(c) or "").split(".")[-1] in ("connected_components", "subgraph") for c in ast.walk(fn)):
+            ctx.fail("graph.whole", m, r,
+                     f"get_clifford_tableau_from_graph returns `{short(r.value, 60)}`, assembled from parts of the graph: the qubits then follow the order of "
+                     f"the parts, not the graph's node order (nodes 0,1,2 with the single edge (0,2) give XZI, ZXI, IIX instead of XIZ, IXI, ZIX)",
+                     func="get_clifford_tableau_from_graph", construct="get_clifford_tableau_from_graph: built from parts of the graph")
+        else:
+            raise AnalysisError(f"get_clifford_tableau_from_graph: cannot trace `{short(r.value, 60)}` back to the graph's stabilizer tableau")
+
+
 def _strip_int(e: ast.AST) -> str:
     if isinstance(e, ast.Call) and isinstance(e.func, ast.Name) and e.func.id == "int" and len(e.args) == 1:
         return norm(e.args[0])
@@ -333,6 +376,7 @@ def run(ctx: Ctx) -> None:
     gatesum.rule_derived_gates(ctx)
     rule_emit_mirror(ctx)
     rule_replay(ctx)
+    rule_graph_tableau_whole(ctx)
     tm = repo.module(TR)
     handled = tables.handled_tags_chain(repo, tm, repo.anchor(TR, "run_circuit"))
     try:
@@ -366,6 +410,7 @@ def _swap_blocks(src: str) -> str:
 
 
 KNOCKOUTS = [
+    Knockout("graph-tableau-per-component", "graphiq/backends/stabilizer/functions/rep_conversion.py", sub_once("    tableau = get_stabilizer_tableau_from_graph(graph)\n    return clifford_from_stabilizer(tableau)\n", "    parts = [clifford_from_stabilizer(get_stabilizer_tableau_from_graph(graph.subgraph(c))) for c in nx.connected_components(graph)]\n    if len(parts) > 1:\n        return sfc.tensor(parts)\n    tableau = get_stabilizer_tableau_from_graph(graph)\n    return clifford_from_stabilizer(tableau)\n"), "graph.whole", "parts of the graph"),
     Knockout("prim-p-sign-or", TR, sub_nth("    tableau.phase = tableau.phase ^ multiply_columns(\n        tableau.table, tableau.table, qubit_position, n_qubits + qubit_position\n    )\n    # update the rest of the tableau\n    tableau.table = add_columns(", "    tableau.phase = tableau.phase ^ tableau.table[:, qubit_position]\n    # update the rest of the tableau\n    tableau.table = add_columns(", 0), "prim.formula", "phase_gate"),
     Knockout("replay-overwritten", RC, sub_once("    return transform.run_circuit(clifford_tableau, circuit, reverse=True)", "    clifford_tableau = transform.run_circuit(clifford_tableau, circuit, reverse=True)\n    clifford_tableau.stabilizer = stabilizer_tableau.table\n    return clifford_tableau"), "reverse.table", "edited before it is returned"),
     Knockout("cz-before-cnot", STABF, _swap_blocks, "inverse.blocks", "order of elimination passes"),
